@@ -26,7 +26,7 @@ def OnceOK : List Ev → Prop
 /-- control points at which `s.negotiated` describes the current stream -/
 def liveD (c : Conf) : Bool :=
   match c.pc with
-  | .done | .fail _ | .crash | .stuck | .hdr1 => false
+  | .done | .fail _ | .crash | .stuck | .hdr1 | .blocked _ | .hung _ => false
   | .top => !c.doRestart
   | _ => true
 
@@ -59,7 +59,7 @@ theorem invD_step (C : List Feature) (O : Oracle) (c : Conf) (h : InvD c) : InvD
     | exact hs
     | exact hf
     | exact ⟨True.intro, ho⟩
-    | (simp_all [liveD, preNeg, segNs, Ev.isHdr, OnceOK]; done)
+    | (simp_all [liveD, preNeg, segNs, Ev.isHdr, IoOp.isHdr, OnceOK]; done)
     | (refine ⟨?_, ho⟩
        have hm := candidates_spec c _ (allowed_sub _ _ (List.mem_of_find?_eq_some
          ‹List.find? _ (allowed (candidates c)) = some _›))
